@@ -178,6 +178,9 @@ type History struct {
 	BadgerOnly bool `json:"badger_only,omitempty"`
 	// OnDisk is set when the history has reopen/compact ops and needs an on-disk database.
 	OnDisk bool `json:"on_disk,omitempty"`
+	// DiscardWriteLogs opens the database the way the ABCI consensus state database is
+	// configured (write logs of finalized and discarded roots are not kept).
+	DiscardWriteLogs bool `json:"discard_write_logs,omitempty"`
 }
 
 // OpStrings renders the op list (for witnesses / reports).
@@ -723,6 +726,10 @@ func Generate(rng *rand.Rand, cfg GenConfig) *History {
 		ver++
 	}
 	_, _ = hasLatest, reopens
+	// A third of the histories run with DiscardWriteLogs, the configuration of the consensus
+	// state database (decided from the op list, not from the PRNG, so that the op streams of
+	// existing seeds do not move).
+	h.DiscardWriteLogs = len(h.Ops)%3 == 0
 	return h
 }
 
